@@ -4,4 +4,4 @@ package types
 
 // Contracts for govc (see /verif/DESIGN.md). Comment-only file; compiled only under -tags verif.
 
-//@ keyfns RequestStoreKey DataSourceStoreKey OracleScriptStoreKey ValidatorStatusStoreKey SigningResultStoreKey ResultStoreKey ReportsOfValidatorPrefixKey
+//@ keyfns ReportStoreKey RequestStoreKey DataSourceStoreKey OracleScriptStoreKey ValidatorStatusStoreKey SigningResultStoreKey ResultStoreKey ReportsOfValidatorPrefixKey
